@@ -33,10 +33,14 @@ func inAnyLoop(b *ssa.BasicBlock) bool { return innermostLoop(b) != nil }
 
 // loopsAllowed: calls of a send-chain function that legitimately sit in a loop, keyed by the
 // calling package and the callee (not by the calling function: splitting the caller is benign).
-var loopsAllowed = map[string]string{
-	"queryer | queryer.(*MultiOpQueryer).fetchFile": "one multipart request per input that carries files: each iteration sends a different request exactly once",
-	"executor | executor.(*DepthExecutor).Execute":  "one pass per plan depth (checked separately: the depth variable strictly increases)",
+// Each entry covers the confirmed number of call sites; a further looped call of the same
+// callee in the package is reported.
+var loopsAllowed = map[string]tabEntry{
+	"queryer | queryer.(*MultiOpQueryer).fetchFile": {1, "one multipart request per input that carries files: each iteration sends a different request exactly once"},
+	"executor | executor.(*DepthExecutor).Execute":  {1, "one pass per plan depth (checked separately: the depth variable strictly increases)"},
 }
+
+var loopsAllowedUsed = map[string]int{}
 
 // sendChain computes the functions on call paths from root to a call of the named sink:
 // members of the region reachable from root that contain the sink call or call a member.
@@ -84,6 +88,55 @@ func ruleMultiplicity(r *Run) {
 		r.Check(len(chain) >= 3 && chain[root], rule, rs[0], "send chain to "+rs[1], r.P.pos(root.Pos()),
 			fmt.Sprintf("%d functions lie on the call paths from here to the network call", len(chain)),
 			"no call path from "+rs[0]+" to "+rs[1]+" was found: the send chain cannot be checked")
+		// R12a.once: along any one path through a chain function the next hop is entered at
+		// most once (a second, sequential send is a retry even without a loop)
+		var all []*ssa.Function
+		for fn := range chain {
+			all = append(all, fn)
+		}
+		sort.Slice(all, func(i, j int) bool { return fnName(all[i]) < fnName(all[j]) })
+		for _, fn := range all {
+			// call sites of the next hop, per callee: two different next hops on one path serve
+			// different parts of the batch (files first, then the rest); the same one twice is a retry
+			hops := map[string]map[ssa.Instruction]bool{}
+			mark := func(callee string, site ssa.Instruction) {
+				if hops[callee] == nil {
+					hops[callee] = map[ssa.Instruction]bool{}
+				}
+				hops[callee][site] = true
+			}
+			for _, e := range r.P.CG.Out[fn] {
+				if e.Kind != "param" && chain[e.Callee] && e.Callee != fn {
+					mark(fnName(e.Callee), e.Site)
+				}
+			}
+			for _, e := range r.P.CG.Ext[fn] {
+				if e.Name == rs[1] {
+					mark(e.Name, e.Site)
+				}
+			}
+			if len(hops) == 0 || len(fn.Blocks) == 0 {
+				continue
+			}
+			max, cyclic, nSites := 0, false, 0
+			for _, hop := range hops {
+				m, c := maxHopsOnPath(fn, hop)
+				nSites += len(hop)
+				if m > max {
+					max = m
+				}
+				cyclic = cyclic || c
+			}
+			switch {
+			case cyclic && max <= 1:
+				// functions with loops are judged by the loop rule above/below
+				r.OK("R12a.once", fnName(fn), "next hop inside a loop", r.P.pos(fn.Pos()), "a call site of the next hop lies on a cycle of this function: judged by the loop rule R12a, not by path counting")
+			case max <= 1:
+				r.OK("R12a.once", fnName(fn), "next hop entered at most once per path", r.P.pos(fn.Pos()), fmt.Sprintf("%d call site(s) of the next hop, never the same callee twice on one path", nSites))
+			default:
+				r.Bad("R12a.once", fnName(fn), "next hop entered at most once per path", r.P.pos(fn.Pos()), fmt.Sprintf("a path through %s enters the downstream send chain %d times (a second attempt after a failed first one): a request the service already executed — a mutation — can be delivered twice, and a failed call is hidden", fnName(fn), max))
+			}
+		}
 		var members []*ssa.Function
 		for fn := range chain {
 			if fn != root {
@@ -102,8 +155,9 @@ func ruleMultiplicity(r *Run) {
 				key := shortPkg(topFn(e.Caller).Pkg.Pkg.Path()) + " | " + cn
 				if !inAnyLoop(e.Site.Block()) {
 					r.OK(rule, fnName(e.Caller), "calls "+cn, site, "call site is not inside any loop of its function: executed at most once per invocation")
-				} else if why, ok := loopsAllowed[key]; ok {
-					r.Tabled(rule, fnName(e.Caller), "calls "+cn, site, "loopsAllowed", why)
+				} else if ent, ok := loopsAllowed[key]; ok && loopsAllowedUsed[r.Property+key] < ent.N {
+					loopsAllowedUsed[r.Property+key]++
+					r.Tabled(rule, fnName(e.Caller), "calls "+cn, site, "loopsAllowed", ent.Reason)
 				} else {
 					r.Bad(rule, fnName(e.Caller), "calls "+cn, site, "a step of the downstream send chain is called from inside a loop: the same request can be sent more than once (retry) or once per list entry instead of once per batch")
 				}
@@ -541,4 +595,91 @@ func ruleStitchVariable(r *Run) {
 		"the variable name the planner puts into `node(id: $…)` ("+strings.Join(planned, ",")+"), the name the executor stores the entity id under ("+strings.Join(filled, ",")+") and the name de-duplication looks up ("+strings.Join(looked, ",")+") differ: child steps are sent without their id")
 	okArg := len(argName) == 1 && argName[0] == "id"
 	r.Check(okArg, rule, fnName(conv), "node argument name", r.P.pos(conv.Pos()), "the wrapper calls node(id: …)", "the node wrapper no longer passes the argument `id` required by the Relay Node field")
+}
+
+// maxHopsOnPath: the largest number of marked instructions on any entry-to-exit path of fn,
+// computed on the condensation of the CFG (loops that contain no marked instruction count
+// as one node of weight 0). inLoop reports that a marked instruction lies on a cycle.
+func maxHopsOnPath(fn *ssa.Function, hop map[ssa.Instruction]bool) (max int, inLoop bool) {
+	// Tarjan SCC
+	index := map[*ssa.BasicBlock]int{}
+	low := map[*ssa.BasicBlock]int{}
+	on := map[*ssa.BasicBlock]bool{}
+	comp := map[*ssa.BasicBlock]int{}
+	var stack []*ssa.BasicBlock
+	next, ncomp := 1, 0
+	var strong func(b *ssa.BasicBlock)
+	strong = func(b *ssa.BasicBlock) {
+		index[b], low[b] = next, next
+		next++
+		stack = append(stack, b)
+		on[b] = true
+		for _, s := range b.Succs {
+			if index[s] == 0 {
+				strong(s)
+				if low[s] < low[b] {
+					low[b] = low[s]
+				}
+			} else if on[s] && index[s] < low[b] {
+				low[b] = index[s]
+			}
+		}
+		if low[b] == index[b] {
+			for {
+				x := stack[len(stack)-1]
+				stack = stack[:len(stack)-1]
+				on[x] = false
+				comp[x] = ncomp
+				if x == b {
+					break
+				}
+			}
+			ncomp++
+		}
+	}
+	strong(fn.Blocks[0])
+	weight := make([]int, ncomp)
+	size := make([]int, ncomp)
+	selfLoop := make([]bool, ncomp)
+	succs := make([]map[int]bool, ncomp)
+	for b, c := range comp {
+		size[c]++
+		for _, i := range b.Instrs {
+			if hop[i] {
+				weight[c]++
+			}
+		}
+		for _, s := range b.Succs {
+			if s == b {
+				selfLoop[c] = true
+			}
+			if cs, ok := comp[s]; ok && cs != c {
+				if succs[c] == nil {
+					succs[c] = map[int]bool{}
+				}
+				succs[c][cs] = true
+			}
+		}
+	}
+	for c := 0; c < ncomp; c++ {
+		if weight[c] > 0 && (size[c] > 1 || selfLoop[c]) {
+			inLoop = true
+		}
+	}
+	memo := map[int]int{}
+	var longest func(c int) int
+	longest = func(c int) int {
+		if v, ok := memo[c]; ok {
+			return v
+		}
+		best := 0
+		for s := range succs[c] {
+			if l := longest(s); l > best {
+				best = l
+			}
+		}
+		memo[c] = weight[c] + best
+		return memo[c]
+	}
+	return longest(comp[fn.Blocks[0]]), inLoop
 }
